@@ -21,6 +21,8 @@ type Sim struct {
 	lastRefreshEpoch beacon.EpochTime
 	// Known former validators (for evidence against former validators).
 	former []*Validator
+	// abandoned: nodes that are no longer refreshed by their operator.
+	abandoned map[*NodeKeys]bool
 	// Profile tunes generation weights ("", "economy", "hostile", "registry", ...).
 	Profile string
 }
@@ -187,7 +189,14 @@ func (s *Sim) GenBlock(t *rapid.T, view *View, maxTxs int) *BlockGen {
 		for i, ek := range s.W.Entities {
 			for _, nk := range ek.Nodes {
 				// the anchor entity always refreshes; others mostly do (expiry is part of the histories)
-				if i == 0 || rapid.IntRange(0, 4).Draw(t, "refresh") > 0 {
+				// and a node's operator occasionally goes away for good, so that the node expires and is removed
+				if i != 0 && !s.abandoned[nk] && rapid.IntRange(0, 9).Draw(t, "abandon") == 0 {
+					if s.abandoned == nil {
+						s.abandoned = map[*NodeKeys]bool{}
+					}
+					s.abandoned[nk] = true
+				}
+				if i == 0 || (!s.abandoned[nk] && rapid.IntRange(0, 4).Draw(t, "refresh") > 0) {
 					d := g.RefreshTx(ek, nk, exp)
 					bg.Txs = append(bg.Txs, d)
 				}
